@@ -92,6 +92,9 @@ def boxes(h: Harness):
         for lo in range(0, 3):
             for hi in range(lo, 3 if len(al) < 3 else 2):
                 gen_case(h, b, ("ann", "str", ("strSize", lo, hi, al)), StringSizeBetween(lo, hi, al), "StringSizeBetween")
+    # strings LONGER than any block size a generator might work in (9..12 characters over two letters: every draw enumerated)
+    for lo, hi in ((9, 10), (10, 10), (11, 12)):
+        gen_case(h, b, ("ann", "str", ("strSize", lo, hi, ["a", "b"])), StringSizeBetween(lo, hi, ["a", "b"]), "StringSizeBetween")
     for mn in range(0, 3):
         for mx in range(mn + 1, mn + 3):
             for top in range(mx + 1, mx + 3):
@@ -404,9 +407,49 @@ def weighted_strings(h: Harness):
     wsgrammar.MATRIX[:] = matrix
 
 
+def handed_down_values(h: Harness):
+    """a dependent refinement evaluated against the actual sibling value hands a value down to the child (rec(..., initial_values=...));
+    the child carries exactly that value -- 0 included -- in every representation, after mutation and crossover too"""
+    import ctxgrammar
+    from linear import DSGE, GE, SGE, safe
+    from geneticengine.random.sources import NativeRandomSource
+    from geneticengine.representations.tree.treebased import TreeBasedRepresentation
+    g = ctxgrammar.levels_grammar()
+    rng = h.rng
+    for trial in range(h.n(6, 40)):
+        r = NativeRandomSource(rng.randrange(10**6))
+        reps = [("tree", TreeBasedRepresentation(g, synth.make_decider("grow", 6, r, g))), ("GE", GE(g, synth.make_decider("grow", 6, r, g), gene_length=64)),
+                ("SGE", SGE(g, synth.make_decider("grow", 6, r, g), gene_length=64)), ("DynamicSGE", DSGE(g, 6))]
+        for name, rep in reps:
+            st, a = safe(lambda: rep.create_genotype(r))
+            st2, b_ = safe(lambda: rep.create_genotype(r))
+            if st != "ok" or st2 != "ok":
+                continue
+            genos = [a, b_]
+            for op in (lambda: rep.mutate(r, a), lambda: rep.mutate(r, b_)):
+                st, m = safe(op)
+                if st == "ok":
+                    genos.append(m)
+            st, cs = safe(lambda: rep.crossover(r, a, b_))
+            if st == "ok":
+                genos += list(cs)
+            for geno in genos:
+                st, p = safe(lambda: rep.genotype_to_phenotype(geno))
+                if st != "ok":
+                    continue
+                h.count(f"handed-down-values:{name}")
+                h.seen(f"levels:{name}:{repr(p)[:70]}", nontrivial="LNest" in repr(p))
+                bad = ctxgrammar.level_violations(p)
+                if bad:
+                    site = f"{name}.genotype_to_phenotype" if name != "tree" else "TreeBasedRepresentation.create_genotype"
+                    h.fail(site, "refinement-violated", f"{bad[0]} ({len(bad)} violations) in {repr(p)[:160]}", [name, trial])
+                    break
+
+
 def run(h: Harness):
     boxes(h)
     weighted_strings(h)
+    handed_down_values(h)
     float_refinements(h)
     foreign_options(h)
     sibling_isolation(h)
